@@ -11,7 +11,7 @@
 (* reader: Appendix D); this theorem is what ties them together.           *)
 (***************************************************************************)
 EXTENDS MC_Writer
-RD == INSTANCE ZipOpen
+RD == INSTANCE ZipOpen WITH OBUG <- "none"
 
 NoName == [id |-> EmptyId, len |-> 0, ascii |-> TRUE, tail |-> "", nul |-> FALSE]
 \* the expected layout in the shape the reader model consumes (decoded names = names: the writer only emits UTF-8)
@@ -23,7 +23,7 @@ ReaderLayout(ww) ==
                IF k = "dname" THEN L.cd[i].name ELSE IF k = "dfcomment" THEN NoName ELSE IF k = "aes" THEN <<>> ELSE L.cd[i][k]]],
     lf |-> L.lf]
 TailOf(ww) == [p |-> 0, b |-> ww.cdstart, s |-> CdSize(ww.files), n |-> Len(ww.files), c |-> ww.comment.len, g |-> 0,
-               z |-> NeedZ64End(Len(ww.files), CdSize(ww.files), ww.cdstart), sent |-> FALSE]
+               z |-> NeedZ64End(Len(ww.files), CdSize(ww.files), ww.cdstart), sent |-> FALSE, dsent |-> FALSE]
 EntryAgrees(v, f) ==
    /\ v.name = f.name.id /\ v.rawname = f.name.id /\ v.method = f.method /\ v.date = f.dt[1] /\ v.time = f.dt[2]
    /\ v.crc = f.crc /\ v.usize = f.usize /\ v.csize = f.csize /\ v.hdr = f.hdr /\ v.dstart = f.dstart
